@@ -2855,6 +2855,25 @@ func (r *Runtime) getHash() *maphash.Hash {
 
 // called when the top level function returns normally (i.e. control is passed outside the Runtime).
 func (r *Runtime) leave() {
+	if len(r.jobQueue) > 0 {
+		r.runJobs()
+	}
+	verifJobsIdle(r)
+	r.jobQueue = nil
+	r.vm.stack = nil
+}
+
+// runJobs drains the promise job queue. A dummy call stack entry is kept while the jobs run (as RunProgram does
+// for the global code) so that a Go function called by a job which re-enters the runtime through a Callable, a
+// Constructor or RunProgram is treated as a nested call. Otherwise the return of that call would look like the
+// outermost one and drain the queue re-entrantly, i.e. run newly queued jobs ahead of the remaining older ones.
+func (r *Runtime) runJobs() {
+	vm := r.vm
+	l := len(vm.callStack)
+	vm.callStack = append(vm.callStack, context{})
+	defer func() {
+		vm.callStack = vm.callStack[:l]
+	}()
 	var jobs []func()
 	for len(r.jobQueue) > 0 {
 		jobs, r.jobQueue = r.jobQueue, jobs[:0]
@@ -2862,9 +2881,6 @@ func (r *Runtime) leave() {
 			job()
 		}
 	}
-	verifJobsIdle(r)
-	r.jobQueue = nil
-	r.vm.stack = nil
 }
 
 // called when the top level function returns (i.e. control is passed outside the Runtime) but it was due to an interrupt
